@@ -13,6 +13,10 @@ pub struct Ctx {
     pub thorough: bool,
     pub groups: HashSet<String>,
     pub only_type: Option<String>,
+    pub type_filter: Vec<String>,
+    pub seed: u64,
+    pub replay: Option<Vec<String>>,
+    pub replay_done: bool,
 }
 
 impl Ctx {
